@@ -194,6 +194,34 @@ c("odd_spellings_backslash", "def f(c):\n    if c:\n        return 1\n    else: 
 c("odd_spellings_def", "def  f ( a , b = 1 ) :\n    return ( a , b )\nclass  A ( object ) :\n    x = 1 ;\n")
 
 
+# module headers of every shape followed by code that needs a guessed import (family added after the seeded change
+# C03-import-inserted-at-header-start: the insertion line was the START of a multi-line header statement)
+_HEADERS = {
+    "none": "",
+    "doc1": '"""doc"""\n',
+    "doc_multiline": '"""doc\n\nmore text\n"""\n',
+    "doc_paren_adjacent": '("doc "\n "string")\n',
+    "doc_then_future": '"""doc"""\nfrom __future__ import annotations\n',
+    "future_paren": "from __future__ import (\n    annotations,\n    division,\n)\n",
+    "future_backslash": "from __future__ import annotations, \\\n    division\n",
+    "future_then_comment": "from __future__ import annotations  # c\n# another comment\n",
+    "doc_semicolon_multiline": '"""doc"""; first_value = (\n    1,\n)\n',
+    "future_semicolon": "from __future__ import annotations; first_value = [\n    1,\n]\n",
+    "shebang_coding": "#!/usr/bin/env python\n# -*- coding: utf-8 -*-\n",
+    "doc_multiline_paren_future": '"""doc\nmore\n"""\nfrom __future__ import (\n    annotations\n)\n',
+    "import_paren": "from os.path import (\n    join,\n    sep,\n)\n",
+    "doc_formfeed": '"""a\x0cb\nc"""\n',
+}
+_NEEDS = {
+    "os": "print(os.getcwd())\n",
+    "two": "print(functools.partial(os.path.join, 'a')('b'))\n",
+    "in_def": "def where():\n    return os.sep, math.pi\nprint(where())\n",
+}
+for _h, _ht in _HEADERS.items():
+    for _n, _nt in _NEEDS.items():
+        c("future_import_header_%s_%s" % (_h, _n), _ht + _nt)
+
+
 @functools.lru_cache(maxsize=None)
 def repo_examples():
     with open(os.path.join(HERE, "corpus", "repo_examples.json")) as f:
